@@ -10,6 +10,7 @@ CONSTANTS
   NotifyDown = FALSE
   MaxTx = 1
   PGossip = TRUE
+  PAnnDown = FALSE
   PAnnounce = TRUE
 INVARIANTS MonitorsQuiet C02DiscoveryStrict
 VIEW View
